@@ -18,6 +18,7 @@ theorem norm_freeze : ∀ v : PyVal, (freeze v).norm = v.norm
   | .list xs => by simp only [freeze, norm, normList_freezeList xs]
   | .tuple xs => by simp only [freeze, norm, normList_freezeList xs]
   | .setlike xs => by simp only [freeze, norm, normList_freezeList xs]
+  | .seqlike xs => by simp only [freeze, norm, normList_freezeList xs]
   | .maplike kvs => by simp only [freeze, norm, normKVs_freezeKVs kvs]
   | .frozenset _ => rfl
 theorem normList_freezeList : ∀ xs : List PyVal, normList (freezeList xs) = normList xs
@@ -41,6 +42,7 @@ theorem freeze_idem : ∀ v : PyVal, freeze (freeze v) = freeze v
   | .list xs => by simp only [freeze, freezeList_idem xs]
   | .tuple xs => by simp only [freeze, freezeList_idem xs]
   | .setlike _ => rfl
+  | .seqlike xs => by simp only [freeze, freezeList_idem xs]
   | .maplike kvs => by simp only [freeze, freezeKVs_idem kvs]
   | .frozenset _ => rfl
 theorem freezeList_idem : ∀ xs : List PyVal, freezeList (freezeList xs) = freezeList xs
@@ -62,6 +64,7 @@ theorem freeze_of_isFrozen : ∀ v : PyVal, v.isFrozen = true → freeze v = v
   | .set _, h => by simp [isFrozen] at h
   | .list _, h => by simp [isFrozen] at h
   | .setlike _, h => by simp [isFrozen] at h
+  | .seqlike _, h => by simp [isFrozen] at h
   | .maplike _, h => by simp [isFrozen] at h
   | .frozendict kvs, h => by
       simp only [isFrozen] at h
@@ -108,6 +111,9 @@ theorem isFrozen_freeze : ∀ v : PyVal, v.supported = true → (freeze v).isFro
       simp only [supported] at h
       simp only [freeze, isFrozen, isFrozenList_freezeList xs h]
   | .setlike xs, h => by
+      simp only [supported] at h
+      simp only [freeze, isFrozen, isFrozenList_freezeList xs h]
+  | .seqlike xs, h => by
       simp only [supported] at h
       simp only [freeze, isFrozen, isFrozenList_freezeList xs h]
   | .maplike kvs, h => by
@@ -158,6 +164,7 @@ theorem supported_of_isFrozen : ∀ v : PyVal, v.isFrozen = true → v.supported
   | .set _, h => by simp [isFrozen] at h
   | .list _, h => by simp [isFrozen] at h
   | .setlike _, h => by simp [isFrozen] at h
+  | .seqlike _, h => by simp [isFrozen] at h
   | .maplike _, h => by simp [isFrozen] at h
   | .frozendict kvs, h => by
       simp only [isFrozen] at h
